@@ -1,16 +1,16 @@
 ------------------------------- MODULE T_Time -------------------------------
 (* Trace validation for C15: {"in": {plan, tests}, "obs": {res, now, ent,    *)
-(* rf}}: the raw timestamps of the entry and of the reference file as read   *)
+(* rf, rfl}}: the raw timestamps of the entry and of the reference file as read   *)
 (* back with lstat, the injected 'now', and for every test whether find      *)
 (* selected the entry.  Only the raw values are used to judge.               *)
 EXTENDS Time, TraceLib
 
 InDomain(in, obs) == TRUE
 
-TestOK(t, r, obs) ==
+TestOK(in, t, r, obs) ==
   IF t.t = "age"
   THEN (AgeInDomain(t.kind, obs.now, obs.ent) => r = AgeTest(t.kind, t.unit, t.form, [v |-> t.n], obs.now, obs.ent))
-  ELSE r = NewerTest(t.x, t.y, obs.ent, obs.rf)
+  ELSE r = NewerTest(t.x, t.y, obs.ent, IF "reflink" \in DOMAIN in.plan THEN RefRecord(in.plan.reflink, obs.rfl, obs.rf) ELSE obs.rf)
 
 \* 'now' is fixed when find starts: find was started between t0 (just before it was spawned) and t1 (when the
 \* command run by its first -exec started); the -mmin test evaluated after that slow command must answer as
@@ -22,7 +22,7 @@ Conforms(in, obs) ==
   IF "clock" \in DOMAIN obs THEN ClockOK(in, obs) ELSE
   /\ "panic" \notin DOMAIN obs /\ "exit" \notin DOMAIN obs
   /\ Len(obs.res) = Len(in.tests)
-  /\ \A i \in DOMAIN in.tests : TestOK(in.tests[i], obs.res[i], obs)
+  /\ \A i \in DOMAIN in.tests : TestOK(in, in.tests[i], obs.res[i], obs)
 
 Describe(in) == [note |-> "expected values depend on the timestamps in the observation; see the replay"]
 INSTANCE TraceCheck
